@@ -72,13 +72,15 @@ type flushInfo struct {
 }
 
 type history struct {
-	variant  string
-	log      *crashlog.Log
-	flushes  []flushInfo
-	trace    []string
-	sessions int
-	drops    int
-	reopens  int
+	variant         string
+	log             *crashlog.Log
+	flushes         []flushInfo
+	trace           []string
+	sessions        int
+	drops           int
+	reopens         int
+	deferredBatches int
+	bigPuts         int
 }
 
 func (h *history) tracef(format string, a ...interface{}) {
@@ -188,10 +190,13 @@ func runHistory(t *rapid.T) *history {
 			open(rapid.SampledFrom(dbNames).Draw(t, "db"))
 		}
 
+		pendingBatch := map[string][]kvdb.Batch{}
+		pendingDescr := map[string][]string{}
 		nOps := rapid.IntRange(3, 28).Draw(t, "ops")
 		for i := 0; i < nOps; i++ {
 			op := rapid.SampledFrom([]string{
 				"put", "put", "put", "put", "del", "batch", "batch", "open", "open", "reopen", "drop", "flush", "flush", "flush",
+				"batchPrepare", "batchWrite", "batchWrite", "bigput",
 			}).Draw(t, "op")
 			opened := sortedNames(handles)
 			if len(opened) == 0 && op != "flush" {
@@ -207,6 +212,8 @@ func runHistory(t *rapid.T) *history {
 				open(rapid.SampledFrom(av).Draw(t, "db"))
 			case "reopen":
 				name := rapid.SampledFrom(opened).Draw(t, "db")
+				delete(pendingBatch, name)
+				delete(pendingDescr, name)
 				if err := handles[name].Close(); err != nil {
 					t.Fatalf("Close(%s) failed: %v", name, err)
 				}
@@ -246,8 +253,58 @@ func runHistory(t *rapid.T) *history {
 					t.Fatalf("batch Write(%s) failed: %v", name, err)
 				}
 				h.tracef("batch %s [%s]", name, strings.Join(descr, "; "))
+			case "batchPrepare":
+				// a batch that is filled now and written later, possibly after a Flush
+				name := rapid.SampledFrom(opened).Draw(t, "db")
+				b := handles[name].NewBatch()
+				n := rapid.IntRange(1, 3).Draw(t, "batchLen")
+				descr := []string{}
+				for j := 0; j < n; j++ {
+					k := genKey(t)
+					if rapid.IntRange(0, 3).Draw(t, "batchDel") == 0 {
+						_ = b.Delete(k)
+						descr = append(descr, fmt.Sprintf("del %x", k))
+					} else {
+						v := genVal(t)
+						_ = b.Put(k, v)
+						descr = append(descr, fmt.Sprintf("put %x=%x", k, v))
+					}
+				}
+				pendingBatch[name] = append(pendingBatch[name], b)
+				pendingDescr[name] = append(pendingDescr[name], strings.Join(descr, "; "))
+				h.tracef("batch prepared on %s [%s]", name, strings.Join(descr, "; "))
+			case "batchWrite":
+				var cands []string
+				for _, n := range opened {
+					if len(pendingBatch[n]) > 0 {
+						cands = append(cands, n)
+					}
+				}
+				if len(cands) == 0 {
+					continue
+				}
+				name := rapid.SampledFrom(cands).Draw(t, "db")
+				b, d := pendingBatch[name][0], pendingDescr[name][0]
+				pendingBatch[name], pendingDescr[name] = pendingBatch[name][1:], pendingDescr[name][1:]
+				if err := b.Write(); err != nil {
+					t.Fatalf("deferred batch Write(%s) failed: %v", name, err)
+				}
+				h.deferredBatches++
+				h.tracef("deferred batch written on %s [%s]", name, d)
+			case "bigput":
+				// a value large enough that two of them exceed the ideal batch size of one flush
+				name := rapid.SampledFrom(opened).Draw(t, "db")
+				k := genKey(t)
+				v := bytes.Repeat([]byte{byte(rapid.IntRange(1, 255).Draw(t, "bigFill"))}, 60*1024)
+				if err := handles[name].Put(k, v); err != nil {
+					t.Fatalf("Put(%s) failed: %v", name, err)
+				}
+				h.bigPuts++
+				h.tracef("put %s %x=<60 KiB of %02x>", name, k, v[0])
 			case "drop":
 				name := rapid.SampledFrom(opened).Draw(t, "db")
+				delete(pendingBatch, name)
+				delete(pendingDescr, name)
 				_ = handles[name].Close()
 				handles[name].Drop()
 				delete(handles, name)
@@ -417,6 +474,12 @@ func checkAllPrefixes(t *rapid.T, h *history) {
 	st.Class("histories_"+h.variant, 1)
 	if h.sessions >= 2 {
 		st.Class("histories_2plus_sessions", 1)
+	}
+	if h.deferredBatches > 0 {
+		st.Class("histories_with_deferred_batch", 1)
+	}
+	if h.bigPuts >= 2 {
+		st.Class("histories_with_flush_split_into_batches", 1)
 	}
 	if h.drops > 0 {
 		st.Class("histories_with_drop", 1)
